@@ -109,14 +109,14 @@ class NameValuePair(FieldParsableBase):
         if parser.unparsed_length:
             parser.parse_separator(cls.get_separator())
             parser.parse_string_by_length('value', min_length=0)
-            value = parser['value']
+            value = parser['value'].lstrip(' \t')
             if value and value[0] == '"':
                 quoted = True
                 value = value[1:]
                 if value and value[-1:] == '"':
                     value = value[:-1]
 
-        return cls(parser['name'], value, quoted), parser.parsed_length
+        return cls(parser['name'].rstrip(' \t'), value, quoted), parser.parsed_length
 
     def compose(self):
         composer = ComposerText()
